@@ -383,7 +383,14 @@ pub fn mut_step(d: &mut Driver, ch: &mut dyn Chooser, i: usize, full: bool) {
                 let v = !s.model[pos];
                 d.log(format!("write M{sid}[{pos}]={v:#x}"));
                 let m = mref(&mut s);
-                if run(d, "DerefMut", || m[pos] = v).is_some() {
+                let how = pos % 3;
+                if run(d, "DerefMut", || match how {
+                    0 => m[pos] = v,
+                    1 => std::borrow::BorrowMut::<[u8]>::borrow_mut(m)[pos] = v,
+                    _ => AsMut::<[u8]>::as_mut(m)[pos] = v,
+                })
+                .is_some()
+                {
                     d.cell(format!("M|{rname}|write|-|ok"));
                     s.model[pos] = v;
                 }
